@@ -280,3 +280,25 @@ _sem("C15",
      "SamplingQuery (exact support / routing checks, 6-sigma frequency test)",
      extra_assumptions=["the convergence clause is a finite-sample statistical test (n = 3000 "
                         "quick / 20000 thorough per circuit and flag set, 6 sigma, confirm step)"])
+
+from . import norm_props  # noqa: E402  pylint: disable=wrong-import-position
+
+_generic("C12", norm_props,
+         "Direction A: TLC enumerates smooth and decomposable circuits with normalised input rows "
+         "and normalised dense / mixing sum rows and checks on the model itself (invariant NormInv) "
+         "that every unit is non-negative and sums to one over its scope; the behaviours are "
+         "replayed (evaluation and symbolic integration against the exact tables, four fold x "
+         "optimize combinations). Direction B: the real templates (image_data with every region "
+         "graph / cp, cp-t, tucker / categorical, binomial, gaussian / mixing or dense; "
+         "tabular_data; hmm; fully_factorized; probabilistic cp and tucker) with their own random "
+         "unconstrained parameters: compiled integrate = 1 (|log Z| <= 1e-9), brute-force sum = 1 "
+         "for small discrete circuits, non-negative values, finite log-space values, also after two "
+         "random SGD steps and after reset_parameters; TLC accepts a record iff all clauses hold.",
+         "Model checking of the normalisation argument on the specification plus replay, and trace "
+         "validation of records measured on the real templates.",
+         "TLC invariant NormInv on CircuitSys.tla + replay; TLC validation (TraceTemplates.tla) of "
+         "records from real templates",
+         note=("Trusted base: TLC, the replayer, float64 evaluation with tolerance 1e-9 for the "
+               "template records (their unconstrained parameters are random reals: the expectation "
+               "'= 1' is the specification's, the comparison is numeric). Gaussian inputs are "
+               "covered only through the compiled symbolic integral."))
